@@ -2,7 +2,11 @@
    fix.  The linter, the formatter fixes (opa-fmt, use-rego-v1) and directory-package-mismatch are
    oracles (Section variables); the three text fixes are those of Model/Fixes.v.  Once a file has been
    fixed in an iteration, only violations of the same rule on rows not yet changed are fixed
-   (fixedInIteration); a rename ends the iteration.  Definitions only. *)
+   (fixedInIteration); a rename ends the iteration.
+   handleRename's conflict loop (OnConflictRename) is explicit: the name tried next is the candidate
+   function applied to the name TRIED LAST ([rename_loop]); the function itself (renameCandidate,
+   C13's Model/Rename.v rename_candidate) is a Section variable, and the Go loop, which has no bound,
+   gets fuel with an explicit out-of-fuel result.  Definitions only. *)
 From Regal Require Export Model.Fixes.
 
 Inductive rule := RUao | RNwc | RNrr | RFmt | RV1 | RDpm.
@@ -62,17 +66,62 @@ Definition skip_violation (m : fixed_map) (v : violation) : bool :=
   | None => false
   end.
 
-Inductive pass_out := PErr | POk (files : fs) (made : bool) (conflict : bool).
+(* PFuel: the candidate loop of a rename ran out of fuel (in Go: it would still be running) *)
+Inductive pass_out := PErr | PFuel | POk (files : fs) (made : bool) (conflict : bool).
 Inductive loop_out := OutOfFuel | LErr | Done (files : fs) (conflict : bool).
+
+(* ---- handleRename, OnConflictRename: the candidate rounds ---- *)
+Section RenameLoop.
+  (* renameCandidate *)
+  Variable candidate : str -> str.
+
+  (* the k-th name tried for a move to [to]:  to, candidate to, candidate (candidate to), ... *)
+  Fixpoint cand_iter (k : nat) (to : str) : str :=
+    match k with O => to | S k' => cand_iter k' (candidate to) end.
+
+  (* fp.Rename(from, to) reports a conflict while [to] is held by the provider; every conflict replaces
+     [to] by the candidate of the name just tried.  Result: (number of conflicts, name settled on);
+     None = out of fuel *)
+  Fixpoint rename_loop (fuel : nat) (files : fs) (to : str) : option (nat * str) :=
+    match fuel with
+    | O => None
+    | S f =>
+      match fs_get files to with
+      | None => Some (O, to)
+      | Some _ =>
+          match rename_loop f files (candidate to) with
+          | Some (k, n) => Some (S k, n)
+          | None => None
+          end
+      end
+    end.
+
+  (* a variant that derives every candidate from the target the fix asked for instead of the name
+     tried last (to = renameCandidate(fixResult.Rename.ToPath)): see c12_rename_from_target_refuted *)
+  Fixpoint rename_loop_from_target (fuel : nat) (files : fs) (target to : str) : option (nat * str) :=
+    match fuel with
+    | O => None
+    | S f =>
+      match fs_get files to with
+      | None => Some (O, to)
+      | Some _ =>
+          match rename_loop_from_target f files target (candidate target) with
+          | Some (k, n) => Some (S k, n)
+          | None => None
+          end
+      end
+    end.
+End RenameLoop.
 
 Section Loop.
   (* linting the files with the enabled fixable rules; None = error (e.g. a file does not parse) *)
   Variable lint : fs -> option (list violation).
   (* opa-fmt / use-rego-v1 / directory-package-mismatch on (file, content) *)
   Variable oracle_fix : rule -> str -> str -> fix_result.
-  (* OnConflictRename: the free name chosen after a conflict (renameCandidate iterated; see C13) *)
+  (* OnConflictRename; renameCandidate; fuel of one candidate loop *)
   Variable rename_on_conflict : bool.
-  Variable free_name : fs -> str -> str.
+  Variable candidate : str -> str.
+  Variable rfuel : nat.
 
   Definition of_fix_out (o : fix_out) : fix_result :=
     match o with Changed c => FContent c | Unchanged => FNone end.
@@ -85,14 +134,18 @@ Section Loop.
     | _ => oracle_fix r file content
     end.
 
-  (* handleRename + InMemoryFileProvider.Rename; returns the files and whether a conflict was registered *)
-  Definition handle_rename (files : fs) (from to content : str) : fs * bool :=
+  (* handleRename + InMemoryFileProvider.Rename; returns the files and whether a conflict was registered;
+     None = the candidate loop ran out of fuel *)
+  Definition handle_rename (files : fs) (from to content : str) : option (fs * bool) :=
     match fs_get files to with
-    | None => (fs_put (fs_del files from) to content, false)
+    | None => Some (fs_put (fs_del files from) to content, false)
     | Some _ =>
         if rename_on_conflict
-        then (fs_put (fs_del files from) (free_name files to) content, false)
-        else (fs_del files from, true)
+        then match rename_loop candidate rfuel files to with
+             | Some (_, name) => Some (fs_put (fs_del files from) name content, false)
+             | None => None
+             end
+        else Some (fs_del files from, true)
     end.
 
   Fixpoint pass (vs : list violation) (files : fs) (fixed : fixed_map) (made conflict : bool)
@@ -108,8 +161,10 @@ Section Loop.
         | FError => PErr
         | FNone => pass rest files fixed made conflict
         | FRename to =>
-            let '(files', c) := handle_rename files (v_file v) to content in
-            POk files' true (conflict || c)
+            match handle_rename files (v_file v) to content with
+            | Some (files', c) => POk files' true (conflict || c)
+            | None => PFuel
+            end
         | FContent c =>
             pass rest (fs_put files (v_file v) c)
                  (fixed_add fixed (v_file v) (v_rule v) (l_row (v_loc v))) true conflict
@@ -127,6 +182,7 @@ Section Loop.
       | Some vs =>
         match pass vs files [] false conflict with
         | PErr => LErr
+        | PFuel => OutOfFuel
         | POk files' made c' => if made then loop f files' c' else Done files' c'
         end
       end
